@@ -2,6 +2,7 @@
 #include "world.h"
 #include "net.h"
 #include <string.h>
+#include <stdlib.h>
 
 namespace sim {
 
@@ -41,7 +42,7 @@ RunResult run_plan(const Plan &plan, const std::string &image_dir, bool keep_tra
   Kernel kern;
   K = &kern;
   kern.image_dir = image_dir;
-  kern.keep_trace = keep_trace;
+  kern.keep_trace = keep_trace; if (getenv("SIMQ_TRACE_CAP")) kern.trace_cap = (size_t)atol(getenv("SIMQ_TRACE_CAP"));
   // kernel knobs
   const Json &kn = plan.knobs;
   kern.knobs.pipe_cap = (size_t)kn.geti("pipe_cap", 65536);
